@@ -393,6 +393,6 @@ func plans(tier string) []mc.Plan {
 }
 
 func init() {
-	mc.Register(&mc.Check{ID: "C04", Plans: plans, Budget: map[string]int{"quick": 240, "thorough": 1800},
+	mc.Register(&mc.Check{ID: "C04", Plans: plans, Budget: map[string]int{"quick": 240, "thorough": 3600},
 		Notes: "C04: ordered subsets of in-flight operations on one RPC (send, second send, recv, close, half-close, unary invoke, next NewStream) over a stalled or flowing transport, cancel after quiescence (q) or racing (r), both cancel modes; oracle clauses (1)-(5) of DESIGN.md."})
 }
